@@ -737,6 +737,104 @@ func runC18Mappers(w *hx.Worker, inputs []string) {
 	}
 }
 
+// runC18Combos: k untyped Map() options together with typed mappers on two different token types, in
+// every registration order of the typed ones: every token gets every untyped mapper exactly once and
+// only the typed mappers of its own type.
+func runC18Combos(w *hx.Worker, inputs []string) {
+	sym := abLexer.Symbols()
+	for k := 0; k <= 9; k++ {
+		for order := 0; order < 3; order++ {
+			var opts []participle.Option
+			opts = append(opts, participle.Lexer(abLexer), participle.Elide("S"))
+			typed := []participle.Option{
+				participle.Upper("A"),
+				participle.Map(func(t lexer.Token) (lexer.Token, error) { t.Value = "<" + t.Value + ">"; return t, nil }, "B"),
+			}
+			untyped := func(i int) participle.Option {
+				return participle.Map(func(t lexer.Token) (lexer.Token, error) {
+					if !t.EOF() {
+						t.Value += fmt.Sprintf("%d", i)
+					}
+					return t, nil
+				})
+			}
+			switch order {
+			case 0: // typed first
+				opts = append(opts, typed...)
+				for i := 0; i < k; i++ {
+					opts = append(opts, untyped(i))
+				}
+			case 1: // untyped first
+				for i := 0; i < k; i++ {
+					opts = append(opts, untyped(i))
+				}
+				opts = append(opts, typed...)
+			default: // interleaved
+				opts = append(opts, typed[0])
+				for i := 0; i < k; i++ {
+					opts = append(opts, untyped(i))
+				}
+				opts = append(opts, typed[1])
+			}
+			p, err := participle.Build[GAB](opts...)
+			if err != nil {
+				w.Violate(hx.Violation{Key: fmt.Sprintf("mapper-combo untyped=%d order=%d", k, order), Class: "build-failed", Detail: map[string]any{"err": err.Error()}})
+				continue
+			}
+			plain, _ := participle.Build[GAB](participle.Lexer(abLexer), participle.Elide("S"))
+			for _, in := range inputs {
+				key := fmt.Sprintf("mapper-combo untyped=%d order=%d in=%q", k, order, in)
+				w.Count("evaluations", 1)
+				base, e0 := plain.Lex("", strings.NewReader(in))
+				got, e1 := p.Lex("", strings.NewReader(in))
+				if e0 != nil || e1 != nil {
+					continue
+				}
+				bad := ""
+				if len(got) != len(base) {
+					bad = "token count changed"
+				}
+				for i := 0; bad == "" && i < len(base); i++ {
+					b, t := base[i], got[i]
+					if t.Type != b.Type || t.Pos != b.Pos {
+						bad = fmt.Sprintf("type/position of token %d changed", i)
+						break
+					}
+					if b.EOF() {
+						continue
+					}
+					v := t.Value
+					// every untyped marker exactly once
+					for m := 0; m < k; m++ {
+						if strings.Count(v, fmt.Sprint(m)) != 1 {
+							bad = fmt.Sprintf("token %d %q: untyped mapper #%d applied %d times", i, v, m, strings.Count(v, fmt.Sprint(m)))
+						}
+						v = strings.Replace(v, fmt.Sprint(m), "", 1)
+					}
+					wantV := b.Value
+					switch b.Type {
+					case sym["A"]:
+						wantV = strings.ToUpper(b.Value)
+					case sym["B"]:
+						v = strings.Replace(strings.Replace(v, "<", "", 1), ">", "", 1)
+						if strings.Count(t.Value, "<") != 1 || strings.Count(t.Value, ">") != 1 {
+							bad = fmt.Sprintf("token %d %q: the mapper selected for type B was not applied exactly once", i, t.Value)
+						}
+					}
+					if bad == "" && v != wantV {
+						bad = fmt.Sprintf("token %d of type %d: %q, expected base value %q (a mapper of another type was applied, or its own was not)", i, b.Type, t.Value, wantV)
+					}
+				}
+				if bad != "" {
+					w.Violate(hx.Violation{Key: key, Class: "mapper-combination", Detail: map[string]any{"what": bad}})
+					continue
+				}
+				w.DistinctS(fmt.Sprintf("combo%d/%d%v", k, order, got))
+			}
+		}
+	}
+}
+
 // ---------------------------------------------------------------- plumbing
 
 func chunks(ss []string, n int) [][]string {
@@ -775,8 +873,9 @@ func plan(c *hx.Ctx) *hx.Plan {
 	cs := chunks(ss, 500)
 	sc := chunks(soups, 1000)
 	n1, n2 := len(cs), len(cs)+len(sc)
+	comboIns := strs([]string{"a", "b", " "}, 4)
 	return &hx.Plan{
-		N: n2 + 1,
+		N: n2 + 2,
 		Job: func(w *hx.Worker, i int) {
 			ctx, _ := w.Local("c18", func() any {
 				c, err := newC18()
@@ -790,8 +889,10 @@ func plan(c *hx.Ctx) *hx.Plan {
 				runC18Strings(w, ctx, cs[i])
 			case i < n2:
 				runC18Soups(w, ctx, sc[i-n1])
-			default:
+			case i == n2:
 				runC18Mappers(w, abIns)
+			default:
+				runC18Combos(w, comboIns)
 			}
 		},
 		Describe: func(i int) string { return fmt.Sprintf("chunk %d", i) },
@@ -819,6 +920,7 @@ func replay(c *hx.Ctx, key string) []hx.Violation {
 	runC18Strings(w, ctx, strs(c18alpha, 4))
 	runC18Soups(w, ctx, strs([]string{`\`, "x", "u", "0", "7", "8", "q", `"`, "a", "'"}, 4))
 	runC18Mappers(w, strs([]string{"a", "b", " "}, 5))
+	runC18Combos(w, strs([]string{"a", "b", " "}, 4))
 	var out []hx.Violation
 	for _, v := range w.Violations() {
 		if v.Key == key {
